@@ -179,11 +179,11 @@ def cast(x, line):
 
 
 WRONG_KINDS = {
-    'float': ['int', 'bool', 'str', 'myfloat'],
-    'int': ['bool', 'float', 'myint', 'str'],
-    'bool': ['int', 'str'],
-    'str': ['int', 'float', 'bytes'],
-    'enum': ['otherenum', 'membername', 'int'],
+    'float': ['int', 'bool', 'str', 'myfloat', 'int0', 'boolF', 'myfloat0'],
+    'int': ['bool', 'float', 'myint', 'str', 'boolF', 'float0', 'myint0'],
+    'bool': ['int', 'str', 'int0', 'float0'],
+    'str': ['int', 'float', 'bytes', 'int0', 'bytes0'],
+    'enum': ['otherenum', 'membername', 'int', 'int0', 'boolF'],
 }
 
 
@@ -209,6 +209,19 @@ def raw_python_value(raw, line, ctx):
         return MyInt(4)
     if w == 'bytes':
         return b'ab'
+    # values of a wrong type that compare equal to an empty value (0 == 0.0 == False)
+    if w == 'int0':
+        return 0
+    if w == 'boolF':
+        return False
+    if w == 'float0':
+        return 0.0
+    if w == 'myint0':
+        return MyInt(0)
+    if w == 'myfloat0':
+        return MyFloat(0.0)
+    if w == 'bytes0':
+        return b''
     if w == 'otherenum':
         return ctx.other_enum_member(line.get('enum'))
     if w == 'membername':
